@@ -186,6 +186,58 @@ def reachable_entry_points(repo):
     return sorted(n for n in reach if n[0].isupper())
 
 
+# ---------------------------------------------------------------- class listings (op 7)
+# kinds of children the driver plants under the class (go/impl/cmd/implrun/c07class.go)
+K_ROW, K_VISIBLE, K_HIDDEN, K_LEVEL, K_OVER18, K_NONCLASS, K_VACATED, K_FIXTURE, K_LINK = range(9)
+KIND_NAMES = {K_ROW: "the row's board", K_VISIBLE: "unrestricted class", K_HIDDEN: "hidden class (restricted mask)", K_LEVEL: "class with a required level",
+              K_OVER18: "over-18 class", K_NONCLASS: "ordinary board (not a class)", K_VACATED: "vacated slot", K_FIXTURE: "fixture class as it is", K_LINK: "symbolic link"}
+CLASS_EPS = ["ptt.LoadClassBoards", "bbs.LoadClassBoards", "ptt.LoadFullClassBoards", "bbs.LoadFullClassBoards"]
+ROW_BID = 10
+CLASS_BITS = B["GROUPBOARD"] | B["SYMBOLIC"]
+
+
+def abs_row(ul, o18, inbm, fr, nbm, ba, bl):
+    """the 16 facts of a caller and a board, from the words the code sees (written from the property text)"""
+    return {"sysop": int(bool(ul & P["SYSOP"])), "police": int(bool(ul & P["POLICE"])), "policeman": int(bool(ul & P["POLICE_MAN"])),
+            "basic": int(bool(ul & P["BASIC"])), "verified": int(bool(ul & P["LOGINOK"])), "inbm": int(inbm), "friend": int(fr), "uover18": int(o18),
+            "haslevel": int(bool(ul & bl)), "permboard": int(bool(ul & P["BOARD"])), "namedbm": int(nbm),
+            "hidden": int(bool(ba & B["HIDE"])), "postmask": int(bool(ba & B["POSTMASK"])), "bover18": int(bool(ba & B["OVER18"])),
+            "level0": int(bl == 0), "levelbm": int(bool(bl & P["BM"]))}
+
+
+def returned_attr(r, ba):
+    """building a listing entry forces the restricted mask onto a hidden board the caller sees only as a board (newBoardStat)"""
+    privileged = r["sysop"] or ((r["police"] or r["policeman"]) and r["levelbm"]) or (r["basic"] and r["verified"] and r["inbm"])
+    if r["hidden"] and not r["postmask"] and not privileged and not r["friend"]:
+        return ba | B["POSTMASK"]
+    return ba
+
+
+def kind_header(kind, bid, ba, bl, lvl, fixture):
+    """(named, attr, level) of a planted child"""
+    if kind == K_ROW:
+        return (True, ba, bl)
+    if kind == K_FIXTURE:
+        return (True,) + fixture[bid]
+    return {K_VISIBLE: (True, B["GROUPBOARD"], 0), K_HIDDEN: (True, B["GROUPBOARD"] | B["HIDE"] | B["POSTMASK"], 0), K_LEVEL: (True, B["GROUPBOARD"], lvl),
+            K_OVER18: (True, B["GROUPBOARD"] | B["OVER18"], 0), K_NONCLASS: (True, 0, 0), K_VACATED: (False, B["GROUPBOARD"], 0), K_LINK: (True, B["SYMBOLIC"], 0)}[kind]
+
+
+def parse_class_listings(f):
+    """status, then four listings (code, n, (bid, title, attr) x n), then the stored sibling chain (n, bids)"""
+    pos, lists = 1, []
+    for _ in range(4):
+        code, n = int(f[pos]), int(f[pos + 1])
+        ent = [(int(f[pos + 2 + 3 * k]), int(f[pos + 3 + 3 * k]), int(f[pos + 4 + 3 * k])) for k in range(n)]
+        lists.append((code, ent))
+        pos += 2 + 3 * n
+    n = int(f[pos])
+    chain = [int(x) for x in f[pos + 1:pos + 1 + n]]
+    if pos + 1 + n != len(f):
+        raise ValueError("trailing tokens")
+    return lists, chain
+
+
 def main():
     c = vf.Check("C07")
     rng = c.rng
@@ -384,6 +436,150 @@ def main():
         if f[13:16] != ["0", "-1", "0"]:
             c.violation("listing-degenerate:ptt.LoadClassBoards", "ptt.LoadClassBoards of a class without children: code %s (0 nothing listed, 7 error, 8 panic), %s entries; row %s" % (f[13], f[15], line),
                         {"cases": [line], "got": o, "expected": "... 0 -1 0"})
+
+
+    # ---------------------------------------------------------------- the class listings on non-empty classes
+    # The class tree of the scratch environment: the fixture's class root (bid 1) or its nested class (bid 5) with planted
+    # children — the row's board (as a class / link), an unrestricted class, a hidden class the caller is no friend of, a class
+    # with a required level, an over-18 class, a symbolic link, an ordinary board, a vacated slot, the fixture's own classes —
+    # chained either by the code's resolver (mode 0) or the way the C daemons sharing the segment leave the chain (mode 1,
+    # any order), both sort orders, through ptt.LoadClassBoards / LoadFullClassBoards and their bbs wrappers.
+    fx = vf.run_impl(impl, "C07", ["8"])[0].split()
+    nb = int(fx[1]) if fx[:1] == ["0"] and len(fx) > 1 else 0
+    fixture_hdr = {}
+    for k in range(nb):
+        bid, named, attr, level, titled = (int(x) for x in fx[2 + 5 * k:7 + 5 * k])
+        fixture_hdr[bid] = (bool(named), attr, level)
+    sorted_bids = [[int(x) for x in fx[2 + 5 * nb + s_ * nb:2 + 5 * nb + (s_ + 1) * nb]] for s_ in (0, 1)]
+    fixture_classes = {bid: (a, l) for bid, (n, a, l) in fixture_hdr.items() if n and a & CLASS_BITS}
+    fixture_ok = nb >= 12 and len(fx) == 2 + 7 * nb and set(fixture_classes) == {2, 5} and fixture_hdr[ROW_BID][0] and all(sorted(sb) == list(range(1, nb + 1)) for sb in sorted_bids)
+    if not fixture_ok:
+        c.broken.append({"kind": "correspondence", "where": "class listings", "theorem": "the fixture no longer has the class tree the class-listing cases are planted on (classes 2 and 5 under root 1, 12 boards)",
+                         "examples": [{"case": "8", "impl": " ".join(fx)[:400]}], "log": ""})
+    l7, meta7 = [], []
+
+    def class_case(r, mode, cls, sort, rowgroup=True, kinds=None, fixed=None):
+        tail, ba = materialise(r, rng, group=rowgroup)
+        ul, bl = int(tail.split("|")[0].split()[0]), int(tail.split("|")[1].split()[1])
+        pool = [b for b in range(2, nb + 1) if b not in (cls, ROW_BID)]
+        rng.shuffle(pool)
+        if kinds is None:
+            kinds = [K_VISIBLE, K_HIDDEN, K_LEVEL, K_OVER18, K_NONCLASS, K_VACATED, K_LINK]
+            if rng.random() < 0.3:
+                kinds = rng.sample(kinds, rng.randrange(0, 5))
+        chain = [(ROW_BID, K_ROW)]
+        for fb in sorted(fixture_classes):
+            if fb in pool and (fixed if fixed is not None else rng.random() < 0.5):
+                chain.append((fb, K_FIXTURE))
+                pool.remove(fb)
+        for kd in kinds:
+            chain.append((pool.pop(), kd))
+        own = [b_ for b_ in FREE_PERM + [P["BM"], P["BOARD"], P["BASIC"], P["LOGINOK"]] if b_ & ul]
+        lvl = rng.choice([rng.choice(FREE_PERM), P["SYSOP"], P["BM"] | rng.choice(FREE_PERM), rng.choice(own) if own else P["POST"], P["LOGINOK"]])
+        if mode == 1:
+            rng.shuffle(chain)
+        else:
+            eff = 1 if cls == 1 else sort
+            chain.sort(key=lambda ch: sorted_bids[eff].index(ch[0]))
+        line = "7 %d %d %d|%s|%d|%s|%s" % (mode, cls, sort, tail, lvl, " ".join("%d %d" % ch for ch in chain),
+                                          " ".join("%d %d %d" % ((b_,) + fixture_classes[b_]) for b_ in sorted(fixture_classes)))
+        l7.append(line)
+        meta7.append((r, ul, int(tail.split()[1]), ba, bl, lvl, mode, cls, sort, chain))
+
+    def class_reference(meta):
+        """what the four listings must answer, from the property text: the children (all boards, for the full listing) that are
+        named classes / links and that the rule allows, or the caller administers boards, or is a named moderator of — in
+        sibling (board number) order, each with its title. pttbbs bounds one class listing by ChildCount + 5 entries."""
+        r, ul, o18, ba, bl, lvl, mode, cls, sort, chain = meta
+        hdr = {bid: h + (None,) for bid, h in fixture_hdr.items()}
+        for bid, kd in chain:
+            hdr[bid] = kind_header(kd, bid, ba, bl, lvl, fixture_classes) + (kd,)
+
+        def facts(bid):
+            named, attr, level, kd = hdr[bid]
+            return r if kd == K_ROW else abs_row(ul, o18, False, False, False, attr, level)
+
+        def allowed(bid):
+            named, attr, level, kd = hdr[bid]
+            return bool(named and attr & CLASS_BITS and spec_may_list(facts(bid)))
+
+        def entry(bid):
+            return (bid, 1, returned_attr(facts(bid), hdr[bid][1]))
+        stored = [b_ for b_, _ in chain] if mode == 1 else [b_ for b_, _ in chain if hdr[b_][0]]
+        cap = (len(chain) if mode == 1 else 0) + 5
+        return [entry(b_) for b_ in stored if allowed(b_)][:cap], [entry(b_) for b_ in sorted(hdr) if allowed(b_)], stored, allowed
+
+    def fmt_listing(ent):
+        return " ".join(["1", str(len(ent))] + ["%d %d %d" % e for e in ent])
+
+    if fixture_ok:
+        plain = {f_: 0 for f_ in FIELDS}
+        plain.update(basic=1, verified=1, level0=1)
+        sysop = dict(plain, sysop=1)
+        for r_ in (plain, sysop):                      # the fixture's own tree first: root with its two classes, then the nested class
+            class_case(r_, 0, 1, 0, kinds=[], fixed=True)
+            class_case(r_, 0, 5, 0, kinds=[K_VISIBLE, K_HIDDEN], fixed=True)
+        combos = [(m_, c_, s_) for m_ in (0, 1) for c_ in (1, 5) for s_ in (0, 1)]
+        all_combos = set(k for ks in by_class.values() for k in ks[:(12 if thorough else 4)])
+        for n_, k in enumerate(picked):
+            r_ = base_rows[k][0]
+            for (m_, c_, s_) in (combos if k in all_combos else [combos[n_ % 8]]):
+                class_case(r_, m_, c_, s_, rowgroup=rng.random() < 0.9)
+    o7 = run_impl_par(l7)
+    c.count(len(l7) * 4, "class listings: rows x class trees x 4 entry points")
+    m7 = None
+    crashes = {}
+    class_cov = {}
+    for k7, (meta, line, o) in enumerate(zip(meta7, l7, o7)):
+        r, ul, o18, ba, bl, lvl, mode, cls, sort, chain = meta
+        f = o.split()
+        want_cls, want_full, stored, allowed = class_reference(meta)
+        expected = " ".join(["0", fmt_listing(want_cls), fmt_listing(want_cls), fmt_listing(want_full), fmt_listing(want_full), str(len(stored))] + [str(b_) for b_ in stored])
+        tree = "class %d (%s), chain %s by %s, sort %d: %s" % (cls, "root" if cls == 1 else "nested", "resolved by the code" if mode == 0 else "as planted", "class" if cls == 1 or sort == 1 else "name", sort,
+                                                           ", ".join("%d=%s" % (b_, KIND_NAMES[kd]) for b_, kd in chain))
+        rep = {"cases": [line], "expected": expected, "got": o, "tree": tree,
+               "legend": "case: 7 <chain: 0 resolved by the code, 1 planted> <class> <sort>|<user level> <over18> <in moderator cache> <friend> <named moderator>|<attr> <level of the row's board>|<level of the class with a required level>|(<bid> <kind>)* in sibling order|fixture classes (<bid> <attr> <level>)*; "
+                         "answer: status, then for " + ", ".join(CLASS_EPS) + ": code (1 answered, 7 error, 8 panic), n, (bid, title 1 present / 2 withheld, attr) x n; then the sibling chain the segment holds"}
+        c.nontrivial(("class", mode, cls, sort, tuple(kd for _, kd in chain)) + tuple(r[k_] for k_ in FIELDS))
+        cov_key = "class listing %s / %s" % (reason_class(r)[0], "row board is a class" if ba & CLASS_BITS else "row board is no class")
+        class_cov[cov_key] = class_cov.get(cov_key, 0) + 1
+        try:
+            if f[0] != "0":
+                raise ValueError("status")
+            lists, chain_got = parse_class_listings(f)
+        except (ValueError, IndexError):
+            c.violation("entry-point-crash", "a class listing crashed / stalled on %s; row %s: %s" % (tree, line, o), rep)
+            continue
+        if chain_got != stored:
+            c.broken.append({"kind": "correspondence", "where": "class listings", "theorem": "the sibling chain the segment holds is the planted one / the children in sort order",
+                             "examples": [{"case": line, "impl": o, "check": expected}], "log": ""})
+        for name, (code, ent), want in zip(CLASS_EPS, lists, [want_cls, want_cls, want_full, want_full]):
+            got_bids, want_bids = [e[0] for e in ent], [e[0] for e in want]
+            if code == 8:
+                crashes.setdefault(name, []).append((k7, line, o, tree, rep))
+            elif code != 1:
+                c.violation("listing-error:" + name, "%s returned an error instead of a listing on %s; row %s" % (name, tree, line), rep)
+            elif any(e[1] == 1 and not allowed(e[0]) for e in ent):
+                bad = [e[0] for e in ent if e[1] == 1 and not allowed(e[0])]
+                c.violation("listing-class-leak:" + name, "%s lists board(s) %s with the title although the rule refuses the caller, who neither administers boards nor is a named moderator; %s; row %s" % (name, bad, tree, line), rep)
+            elif got_bids != want_bids:
+                missing, extra = [b_ for b_ in want_bids if b_ not in got_bids], [b_ for b_ in got_bids if b_ not in want_bids]
+                c.violation("listing-class:" + name, "%s answered boards %s where the children the caller may list are %s in sibling order (omitted %s, not to be listed %s%s); %s; row %s"
+                            % (name, got_bids, want_bids, missing, extra, "" if missing or extra else ", order differs", tree, line), rep)
+            elif any(e[1] != 1 for e in ent):
+                c.violation("listing-class-title:" + name, "%s lists board(s) %s without the title for a caller who may list them; %s; row %s" % (name, [e[0] for e in ent if e[1] != 1], tree, line), rep)
+    for name in CLASS_EPS:                           # one violation per function (the ptt one stands for its bbs wrapper); the example is the fixture's own tree
+        bad = crashes.get(name)
+        if not bad:
+            continue
+        k7, line, o, tree, rep = bad[0]
+        c.violation("listing-crash:" + name.split(".")[1],
+                    "%s panics instead of omitting the children the caller may not see (or that are no classes): %d of the %d class trees tried, e.g. %s; row %s"
+                    % (name, len(bad), len(l7), tree, line), dict(rep, crashing_cases=len(bad), cases_tried=len(l7)))
+    c.cov["distribution"].update(class_cov)
+    if l7:
+        k_s = next((k for k, m_ in enumerate(meta7) if m_[6] == 1 and len(m_[9]) >= 8 and not spec_may_list(m_[0])), 0)
+        c.sample({"row": l7[k_s], "impl": o7[k_s], "legend": "class listing: status | ptt.LoadClassBoards, bbs.LoadClassBoards, ptt.LoadFullClassBoards, bbs.LoadFullClassBoards (code n (bid title attr)*) | stored chain"})
 
     # ---------------------------------------------------------------- inconsistent (bid, name) pair and the caller-less helper
     probe = [t for (r, t, _, g) in table[:n_consistent] if not g]
